@@ -141,8 +141,9 @@ static void run_case(std::ostream& os, long long id, const CaseIn& c, Stats& st)
     Paths64 base = InflatePaths(fed[0], fdelta, (JoinType)c.jt, (EndType)c.et, fml, fat); st.libcalls += 2;
     r64 = {base};
     if (!(ex1 && ex2)) {   // the scaled parameter is only defined up to the last bit: the case counts only if the integer result does not depend on that bit
-      std::vector<double> ds = ex1 ? std::vector<double>{fdelta} : std::vector<double>{std::nextafter(fdelta, -INFINITY), fdelta, std::nextafter(fdelta, INFINITY)};
-      std::vector<double> as = (ex2 || fat == 0) ? std::vector<double>{fat} : std::vector<double>{std::nextafter(fat, -INFINITY), fat, std::nextafter(fat, INFINITY)};
+      // every double within 3 ulps of the correctly rounded scaled value (covers delta * pow(10, p) and delta / 10^-p however rounded)
+      auto around = [](double v, bool exact) { std::vector<double> r{v}; if (exact || v == 0) return r; double lo = v, hi = v; for (int i = 0; i < 3; ++i) { lo = std::nextafter(lo, -INFINITY); hi = std::nextafter(hi, INFINITY); r.push_back(lo); r.push_back(hi); } return r; };
+      std::vector<double> ds = around(fdelta, ex1), as = around(fat, ex2);
       for (double d2 : ds) for (double a2 : as) { if (d2 == fdelta && a2 == fat) continue; ++st.libcalls; if (InflatePaths(fed[0], d2, (JoinType)c.jt, (EndType)c.et, fml, a2) != base) robust = 0; }
     }
   } else if (op == "rectclip" || op == "rectcliplines") {
@@ -249,7 +250,8 @@ template <class G> static void fill_case(CaseIn& c, Rng& r, G& g, int rb) {
     long double target = (long double)r.range(1, 7) * std::ldexp(1.0L, rb - 5); if (target < 0.25L) target = 0.25L * r.range(1, 7);
     int sgnd = r.range(0, 2) == 0 ? -1 : 1; if (r.range(0, 24) == 0) sgnd = 0;
     if (p >= 0) { long double nd = std::floor(target * std::ldexp(1.0L, fb) / std::pow(5.0L, p)); if (nd < 1) nd = 1; c.delta.n = sgnd * (int64_t)nd; c.delta.e = fb + p; }   // delta * 10^p = nd * 5^p / 2^fb
-    else { long double nd = std::floor(target * std::ldexp(1.0L, fb)); if (nd < 1) nd = 1; if (nd > 4.0e7L) nd = 4.0e7L; c.delta.n = sgnd * (int64_t)nd * (int64_t)pow10i(-p); c.delta.e = fb; }
+    else { if (fb == 1) fb = 2;   /* p < 0: the scaled delta is only defined up to its last bits - keep it off the half-integers so that most cases are robust */
+      long double nd = std::floor(target * std::ldexp(1.0L, fb)); if (nd < 1) nd = 1; if (nd > 4.0e7L) nd = 4.0e7L; if (fb > 0) nd = (long double)((int64_t)nd | 1); c.delta.n = sgnd * (int64_t)nd * (int64_t)pow10i(-p); c.delta.e = fb; }
     if (r.range(0, 2) != 0 && c.delta.n != 0) { int j = (int)r.range(2, 7); c.at.n = std::llabs(c.delta.n); c.at.e = c.delta.e + j; } else { c.at.n = 0; c.at.e = 0; }
     (void)fam;
   }
@@ -309,7 +311,7 @@ static int cmd_c16(const Args& a) {
       for (long long i = 0; i < n; ++i) for (auto& op : ops) { if (fam_of(op) != fam) continue; CaseIn c; c.op = op; c.p = p; fill_case(c, r, g, 4);
         if (op == "inflate") {      // parameters in units of a quarter of the scaled lattice, from the pool's own exponent
           Dy u = g.pool[0]; for (auto& q : g.pool) if (q.n != 0 && std::llabs(q.n) < std::llabs(u.n == 0 ? INT64_MAX : u.n)) u = q;
-          int64_t unit = std::llabs(u.n); c.delta.n = r.range(-9, 9) * unit; c.delta.e = u.e; if (r.range(0, 1) && c.delta.n) { c.at.n = std::llabs(c.delta.n); c.at.e = u.e + (int)r.range(1, 3); } else { c.at.n = 0; c.at.e = 0; } }
+          int64_t unit = std::llabs(u.n); int64_t j = r.range(-9, 9); if (p < 0 && (j % 4 == 2 || j % 4 == -2)) j += 1; c.delta.n = j * unit; c.delta.e = u.e; if (r.range(0, 1) && c.delta.n) { c.at.n = std::llabs(c.delta.n); c.at.e = u.e + (int)r.range(1, 3); } else { c.at.n = 0; c.at.e = 0; } }
         run_case(os, ++id, c, st); }
     }
   } else if (famsel == "cases") {   // explicit cases (replay)
